@@ -139,7 +139,13 @@ def run(chk, tier):
              "so every function that lowers nr_cpukinds while keeping the array zeroes the vacated slot on every path (may-dataflow from the decrement to the exit)")
     nz = tailzero.run(chk, P, only_arrays=("cpukinds",), min_arrays=1)
     chk.floor("R-TAILZERO", "count-lowering sites", nz, 3)
-    chk.decided += ['after restrict removed a kind the remaining kinds are re-ranked whenever 1 or 2 are left',
+    chk.rule("R-ARGDOMAIN", "a forced efficiency converted from input text reaches hwloc_internal_cpukinds_register() only inside the domain the public entry point enforces: the normalisation of "
+             "hwloc_cpukinds_register() is discovered by evaluation with an out-of-range probe (-5 becomes -1); every other caller that passes a converted local is explored with the conversion returning the probe")
+    import argdomain
+    nad = argdomain.run(chk, P, "hwloc_internal_cpukinds_register", 2, "hwloc_cpukinds_register", "cpukinds.c", ["topology-xml.c", "topology-linux.c"])
+    chk.floor("R-ARGDOMAIN", "callers passing a converted forced efficiency", nad, 1)
+    chk.decided += ['a negative forced efficiency read from XML is normalised like one given to the API (it is not ranked as a huge unsigned value)',
+                    'after restrict removed a kind the remaining kinds are re-ranked whenever 1 or 2 are left',
                     'every info pair added to a kind passed a duplicate test of that pair; the adding loop is not left early',
                     "a kind removed by restrict leaves no stale infos/cpuset pointers for the next registration to reuse (register after restrict)",
                     "non-zero flags, NULL and empty cpusets rejected with EINVAL", "get_by_cpuset: index / EXDEV / ENOENT for each inclusion outcome",
